@@ -53,6 +53,7 @@ class Ctx:
         self.extra: dict[str, Any] = {}
         self.rules_text: dict[str, str] = {}
         self.accepted: list[dict] = []
+        self.floor_failures: list[str] = []
 
     # -- registering ---------------------------------------------------------
     def rule(self, rid: str, text: str) -> None:
@@ -75,8 +76,11 @@ class Ctx:
         return o
 
     def floor(self, rule: str, found: int, minimum: int, what: str) -> None:
+        """Instance-count floor confirmed by hand on the pinned tree.  A shortfall means the rule's matcher no longer
+        finds its instances (a vacuous pass in waiting): it is reported at the end as an analysis error - unless the
+        run has definite violations to report, which take precedence."""
         if found < minimum:
-            raise AnalysisError(f"{rule}: only {found} {what} found (< floor {minimum} confirmed on the pinned tree)")
+            self.floor_failures.append(f"{rule}: only {found} {what} found (< floor {minimum} confirmed on the pinned tree)")
 
     def fn(self, fullname: str) -> FunctionInfo:
         return self.prog.get_function(fullname)
@@ -123,6 +127,10 @@ def finish(ctx: Ctx, level_text: str, seed: int = 0) -> int:
     for o in viols:
         e = next((e for e in known if _matches(e, pid, o)), None)
         (known_hits if e else new).append((o, e))
+    if ctx.floor_failures and not new:
+        raise AnalysisError("; ".join(ctx.floor_failures))
+    for ff in ctx.floor_failures:
+        print(f"  floor: {ff}")
     if undecided and not new:
         # nothing definite to report and some instance could not be classified: fail closed, never a silent pass
         lines = "; ".join(f"{o.rule} {o.where()} [{o.construct}] {o.detail}" for o in undecided[:5])
